@@ -1,8 +1,9 @@
 """Registry: unit id -> (builder, properties served); property id -> info for the evidence file."""
-from . import u03_errexit, u01_results, u05_arith_eval, u06_arith_literal, u20_spans, u04a_while, u04e_andor, u04d_if, u04c_arithfor, u04g_list, u04h_program, u04f_case, u04b_for
+from . import u02_cf_builtins, u03_errexit, u01_results, u05_arith_eval, u06_arith_literal, u20_spans, u04a_while, u04e_andor, u04d_if, u04c_arithfor, u04g_list, u04h_program, u04f_case, u04b_for
 
 UNITS = {
     'U1': (u01_results.build, u01_results.PROPS),
+    'U2': (u02_cf_builtins.build, u02_cf_builtins.PROPS),
     'U3': (u03_errexit.build, u03_errexit.PROPS),
     'U4a': (u04a_while.build, u04a_while.PROPS),
     'U4b': (u04b_for.build, u04b_for.PROPS),
